@@ -294,18 +294,25 @@ decreasing_by
     exact Nat.lt_succ_of_le (sumAbsorbDiags_length S _ _ _ _)
   · simp
 
+/-- one entry of `_combine_chain` (repaired): None ∘ v = v, v ∘ None = v, else v1(v2) (identity scalings dropped) -/
+def combineChainEntry (mk : List (Op K D) → Op K D) (v1 v2 : Op K D) : Op K D :=
+  match v1, v2 with
+  | .idEntry _, v2 => v2
+  | v1, .idEntry _ => v1
+  | v1, v2 => if isIdentity S v1 then v2 else if isIdentity S v2 then v1 else mk [v1, v2]
+
+/-- `BlockDiagonalOperator._combine_chain` -/
+def combineChain (mk : List (Op K D) → Op K D) (dm : Nat) (e1 e2 : List (Op K D)) : Op K D :=
+  Op.blockdiag dm ((e1.zip e2).map fun p => combineChainEntry S mk p.1 p.2)
+
 /-- merge adjacent block-diagonal operators (`opsnew[-1]._combine_chain(op)`); `mk` is ChainOperator.make for the entries -/
+def chainMergeBlockStep (mk : List (Op K D) → Op K D) (acc : List (Op K D)) (op : Op K D) : List (Op K D) :=
+  match acc, op with
+  | .blockdiag dm e1 :: accs, .blockdiag _ e2 => combineChain S mk dm e1 e2 :: accs
+  | acc, op => op :: acc
+
 def chainMergeBlock (mk : List (Op K D) → Op K D) (l : List (Op K D)) : List (Op K D) :=
-  (l.foldl (fun (acc : List (Op K D)) op =>
-    match acc, op with
-    | .blockdiag dm e1 :: accs, .blockdiag _ e2 =>
-        -- _combine_chain (repaired): None ∘ v = v, v ∘ None = v, else v1(v2)
-        Op.blockdiag dm ((e1.zip e2).map fun (v1, v2) =>
-          match v1, v2 with
-          | .idEntry _, v2 => v2
-          | v1, .idEntry _ => v1
-          | v1, v2 => if isIdentity S v1 then v2 else if isIdentity S v2 then v1 else mk [v1, v2]) :: accs
-    | acc, op => op :: acc) []).reverse
+  (l.foldl (chainMergeBlockStep S mk) []).reverse
 
 /-- nested chains unpacked (`opsnew += op._ops if isinstance(op, ChainOperator) else [op]`) -/
 def chainFlatten (ops : List (Op K D)) : List (Op K D) :=
@@ -381,16 +388,21 @@ def scale (o : Op K D) (f : K) : Except String (Op K D) :=
 def negU (fuel : Nat) (o : Op K D) : Op K D :=
   mkChainU S fuel [Op.scaling (tgt o) (S.kneg S.kone) 0, o]
 
+/-- `_combine_sum` (repaired): a missing entry is the identity `ScalingOperator(domain[key], 1.)` — in particular a key missing
+    in BOTH operands becomes `1 ± 1` (twice the identity, or zero), never "still missing" -/
+def unitEntry (v : Op K D) : Op K D := match v with | .idEntry d => Op.scaling d S.kone 0 | v => v
+
+/-- `BlockDiagonalOperator._combine_sum`: entry-wise `SumOperator.make([v1, v2], [selfneg, opneg])` -/
+def combineSum (mk : List (Op K D) → List Bool → Op K D) (dm : Nat) (e1 e2 : List (Op K D)) (n1 n2 : Bool) : Op K D :=
+  Op.blockdiag dm ((e1.zip e2).map fun p => mk [unitEntry S p.1, unitEntry S p.2] [n1, n2])
+
 def sumMergeBlocksInner (fuel : Nat) (mk : List (Op K D) → List Bool → Op K D) (acc : Op K D) (accneg : Bool) :
     List (Op K D × Bool) → Op K D × Bool × List (Op K D × Bool)
   | [] => (acc, accneg, [])
   | (p, pn) :: r =>
       match acc, p with
       | .blockdiag dm e1, .blockdiag _ e2 =>
-          -- _combine_sum (repaired): a missing entry is the identity ScalingOperator(domain[key], 1.)
-          let unit := fun (v : Op K D) => match v with | .idEntry d => Op.scaling d S.kone 0 | v => v
-          let merged := Op.blockdiag dm ((e1.zip e2).map fun (v1, v2) => mk [unit v1, unit v2] [accneg, pn])
-          sumMergeBlocksInner fuel mk merged false r
+          sumMergeBlocksInner fuel mk (combineSum S mk dm e1 e2 accneg pn) false r
       | _, _ =>
         let (a, an, r') := sumMergeBlocksInner fuel mk acc accneg r
         (a, an, (p, pn) :: r')
@@ -505,26 +517,39 @@ def adjointOf : Op K D → Op K D
 /-- the `.inverse` property -/
 def inverseOf (o : Op K D) : Op K D := flip S o INVERSE_BIT
 
-/-- SandwichOperator.make(bun, cheese, sampling_dtype) -/
-def mkSandwich (bun : Op K D) (cheese : Option (Op K D)) (dt : Nat) : Except String (Op K D) := do
-  let (bun, cheese) ← (match cheese with
-    | some (.sandwich ob oc _) => do
-        let b ← matmul S ob bun
-        pure (b, some oc)
-    | c => pure (bun, c) : Except String (Op K D × Option (Op K D)))
-  let cheese := match cheese with
-    | some c => c
-    | none => Op.scaling (tgt bun) S.kone dt
+/-- SandwichOperator.make, first part: a SandwichOperator as cheese is unpacked (`bun = old_cheese._bun @ bun`), a missing cheese
+    is the identity `ScalingOperator(bun.target, 1., sampling_dtype)` -/
+def sandwichArgs (bun : Op K D) (cheese : Option (Op K D)) (dt : Nat) : Except String (Op K D × Op K D) :=
+  match cheese with
+  | some (.sandwich ob oc _) =>
+      match matmul S ob bun with
+      | .ok b => .ok (b, oc)
+      | .error e => .error e
+  | some c => .ok (bun, c)
+  | none => .ok (bun, Op.scaling (tgt bun) S.kone dt)
+
+/-- SandwichOperator.make, second part: the scaling-bun shortcuts (`|g|² == 1`: the cheese itself; else `cheese.scale(|g|²)`)
+    or the chain `bun.adjoint @ cheese @ bun` -/
+def sandwichCore (bun cheese : Op K D) : Except String (Op K D) :=
   match bun with
   | .scaling _ c _ =>
-      let f := S.kabs2 c
-      if S.keq f S.kone then pure cheese else do
-        let op ← scale S cheese f
-        pure (Op.sandwich bun cheese op)
-  | _ => do
-      let t ← matmul S (adjointOf S bun) cheese
-      let op ← matmul S t bun
-      pure (Op.sandwich bun cheese op)
+      if S.keq (S.kabs2 c) S.kone then .ok cheese else
+      match scale S cheese (S.kabs2 c) with
+      | .ok op => .ok (Op.sandwich bun cheese op)
+      | .error e => .error e
+  | _ =>
+      match matmul S (adjointOf S bun) cheese with
+      | .error e => .error e
+      | .ok t =>
+        match matmul S t bun with
+        | .ok op => .ok (Op.sandwich bun cheese op)
+        | .error e => .error e
+
+/-- SandwichOperator.make(bun, cheese, sampling_dtype) -/
+def mkSandwich (bun : Op K D) (cheese : Option (Op K D)) (dt : Nat) : Except String (Op K D) :=
+  match sandwichArgs S bun cheese dt with
+  | .ok (b, c) => sandwichCore S b c
+  | .error e => .error e
 
 /-- BlockDiagonalOperator(domain, operators): `subdoms` are the domain ids of the keys, `ents[i] = none` for a missing key -/
 def mkBlock (dm : Nat) (subdoms : List Nat) (ents : List (Option (Op K D))) : Except String (Op K D) :=
@@ -538,5 +563,131 @@ def mkInvEnabler (o : Op K D) : Except String (Op K D) :=
   if dom o == tgt o then .ok (Op.invEnabler o) else .error "TypeError"
 
 end build
+
+/-! ### construction scripts: the expression trees of the property -/
+
+/-- operator expressions as written by a user: leaves of the library and `+ - @ .adjoint .inverse -x x.scale(c)`,
+    `SandwichOperator.make`, `InversionEnabler`, `BlockDiagonalOperator` (`missing` = an absent key) -/
+inductive Expr (K D : Type) where
+  | leaf (id cap dom tgt : Nat)
+  | scaling (dom : Nat) (c : K) (dt : Nat)
+  | diag (dom : Nat) (d : D) (dt : Nat)
+  | null (dom tgt : Nat)
+  | add (a b : Expr K D)
+  | sub (a b : Expr K D)
+  | matmul (a b : Expr K D)
+  | adjoint (a : Expr K D)
+  | inverse (a : Expr K D)
+  | neg (a : Expr K D)
+  | scale (a : Expr K D) (c : K)
+  | sandwich (bun cheese : Expr K D) (dt : Nat)
+  | sandwichNone (bun : Expr K D) (dt : Nat)
+  | invEnabler (a : Expr K D)
+  | block (dom : Nat) (subdoms : List Nat) (ents : List (Expr K D))
+  | missing
+deriving Inhabited
+
+def isMissing : Expr K D → Bool | .missing => true | _ => false
+
+/-- first error in list order, else all values -/
+def seqExcept {α : Type} : List (Except String α) → Except String (List α)
+  | [] => .ok []
+  | .error e :: _ => .error e
+  | .ok x :: rest => match seqExcept rest with
+    | .ok xs => .ok (x :: xs)
+    | .error e => .error e
+
+section buildExpr
+variable (S : Sem K D R)
+
+/-- evaluate a construction script with the (modelled) NIFTy constructors and operator overloads -/
+def build : Expr K D → Except String (Op K D)
+  | .leaf id cap dom tgt => .ok (Op.leaf id cap dom tgt)
+  | .scaling d c dt => .ok (Op.scaling d c dt)
+  | .diag d v dt => .ok (Op.diag d v 0 dt)
+  | .null d t => .ok (Op.null d t)
+  | .add a b => match build a, build b with
+    | .ok x, .ok y => mkSum S [x, y] [false, false]
+    | .error e, _ => .error e
+    | _, .error e => .error e
+  | .sub a b => match build a, build b with
+    | .ok x, .ok y => mkSum S [x, y] [false, true]
+    | .error e, _ => .error e
+    | _, .error e => .error e
+  | .matmul a b => match build a, build b with
+    | .ok x, .ok y => matmul S x y
+    | .error e, _ => .error e
+    | _, .error e => .error e
+  | .adjoint a => match build a with
+    | .ok x => .ok (adjointOf S x)
+    | .error e => .error e
+  | .inverse a => match build a with
+    | .ok x => if flipRaises S x INVERSE_BIT then .error "ZeroDivisionError" else .ok (inverseOf S x)
+    | .error e => .error e
+  | .neg a => match build a with
+    | .ok x => scale S x (S.kneg S.kone)
+    | .error e => .error e
+  | .scale a c => match build a with
+    | .ok x => scale S x c
+    | .error e => .error e
+  | .sandwich bun cheese dt => match build bun, build cheese with
+    | .ok b, .ok c => mkSandwich S b (some c) dt
+    | .error e, _ => .error e
+    | _, .error e => .error e
+  | .sandwichNone bun dt => match build bun with
+    | .ok b => mkSandwich S b none dt
+    | .error e => .error e
+  | .invEnabler a => match build a with
+    | .ok x => mkInvEnabler x
+    | .error e => .error e
+  | .block dm sd ents =>
+    match seqExcept (ents.map fun e =>
+        if isMissing e then (.ok none : Except String (Option (Op K D))) else
+        match build e with
+        | .ok o => .ok (some o)
+        | .error err => .error err) with
+    | .ok es => mkBlock dm sd es
+    | .error e => .error e
+  | .missing => .error "bad-script"
+
+end buildExpr
+
+
+/-! ### which scripts the theorem `tree_sound` (Props/C01.lean) covers — computable, reported by the driver -/
+
+def isSumOp : Op K D → Bool | .sum _ _ => true | _ => false
+def isSandwichOp : Op K D → Bool | .sandwich _ _ _ => true | _ => false
+
+/-- the script is a sum, possibly under `.adjoint` -/
+def sumRooted : Expr K D → Bool
+  | .add _ _ => true
+  | .sub _ _ => true
+  | .adjoint a => sumRooted a
+  | _ => false
+
+section covered
+variable (S : Sem K D R)
+
+/-- scripts covered by `tree_sound`: no block-diagonal operators, no InversionEnabler; `.adjoint` (and a sandwich bun) of an
+    operator that *is* a SumOperator must syntactically be a sum; the cheese of a sandwich is not itself a SandwichOperator -/
+def treeOK : Expr K D → Bool
+  | .leaf _ _ _ _ => true
+  | .scaling _ _ _ => true
+  | .diag _ _ _ => true
+  | .null _ _ => true
+  | .add a b => treeOK a && treeOK b
+  | .sub a b => treeOK a && treeOK b
+  | .matmul a b => treeOK a && treeOK b
+  | .adjoint a => treeOK a && (match build S a with | .ok x => !isSumOp x || sumRooted a | .error _ => true)
+  | .inverse a => treeOK a
+  | .neg a => treeOK a
+  | .scale a _ => treeOK a
+  | .sandwich bun ch _ => treeOK bun && treeOK ch &&
+      (match build S bun with | .ok x => !isSumOp x || sumRooted bun | .error _ => true) &&
+      (match build S ch with | .ok c => !isSandwichOp c | .error _ => true)
+  | .sandwichNone bun _ => treeOK bun && (match build S bun with | .ok x => !isSumOp x || sumRooted bun | .error _ => true)
+  | _ => false
+
+end covered
 
 end NiftyVerif.OpAlgebra
